@@ -52,3 +52,56 @@ M("C01", PR, """            if self.__class__ is not other.__class__:
   "both class checks dropped from generated __eq__ (1/2)", also=[(PR,
    """            return self.__class__ == other.__class__ and {comparison}""",
    """            return {comparison}""")])
+
+M("C03", PR, """    def __rsub__(self, other: object) -> ArithmeticExpressionT:
+        if not is_constant(other):
+            return NotImplemented
+
+        if is_nonzero(other):
+            return Sum((other, -self))""", """    def __rsub__(self, other: object) -> ArithmeticExpressionT:
+        if not is_constant(other):
+            return NotImplemented
+
+        if is_nonzero(other):
+            return Sum((-other, self))""", "reflected subtraction computes self - other")
+M("C03", PR, """    def __rmul__(self, other: object) -> ArithmeticExpressionT:
+        if not is_constant(other):
+            return NotImplemented
+
+        if is_zero(other-1):
+            return self""", """    def __rmul__(self, other: object) -> ArithmeticExpressionT:
+        if not is_constant(other):
+            return NotImplemented
+
+        if is_zero(other+1):
+            return self""", "rmul shortcut tests other == -1")
+M("C03", PR, """        if isinstance(other, Sum):
+            return Sum(self.children + other.children)
+        if not other:
+            return self
+        return Sum((*self.children, other))""", """        if isinstance(other, Sum):
+            return Sum(other.children + self.children)
+        if not other:
+            return self
+        return Sum((*self.children, other))""", "Sum+Sum splices in the wrong order (only visible non-commutatively... must stay silent? no: matrices commute under +)",
+  expect="MISSED")
+M("C03", PR, """        if not other:
+            return self
+        return Sum((*self.children, -other))""", """        if not other:
+            return self
+        return Sum((*self.children, other))""", "Sum.__sub__ loses the sign")
+M("C03", PR, """    def __lt__(self, other) -> NoReturn:
+        raise TypeError("expressions don't have an order")""", """    def __lt__(self, other):
+        return Comparison(self, "<", other)""", "__lt__ builds a Comparison")
+M("C03", PR, """    if not (denominator-1):
+        return numerator""", """    if not (denominator-1) or not (denominator+1):
+        return numerator""", "quotient() returns numerator for denominator -1")
+M("C03", PR, """        if is_zero(other):  # exponent zero
+            return 1
+        elif is_zero(other-1):  # exponent one
+            return self
+        return Power(self, other)""", """        if is_zero(other):  # exponent zero
+            return 1
+        elif is_zero(other-1) or is_zero(other+1):  # exponent one
+            return self
+        return Power(self, other)""", "x**-1 folded to x")
